@@ -23,7 +23,7 @@ func GenString(ctrl bool) *rapid.Generator[string] {
 		case 10:
 			// text that LOOKS like an escape sequence (output of a tool that prints encoded JSON), HTML-sensitive
 			// characters, every control character that has a short escape in some language
-			atoms := []string{`\u0026`, `\u003c`, `\u003e`, `\n`, `\"`, `\\`, "&", "<", ">", "&&", "\u2028", "\u2029", "x", "\x7f"}
+			atoms := []string{`\u0026`, `\u003c`, `\u003e`, `\ufffd`, `\uFFFD`, `\u0000`, `\u2028`, `\n`, `\"`, `\\`, "&", "<", ">", "&&", "\u2028", "\u2029", "x", "\x7f"}
 			if ctrl {
 				atoms = append(atoms, "\a", "\b", "\f", "\v", "\t")
 			}
@@ -135,11 +135,26 @@ func GenMVal(ctrl, floats bool, depth int) *rapid.Generator[MVal] {
 
 func GenMObj(ctrl, floats bool) *rapid.Generator[MObj] {
 	return rapid.Custom(func(t *rapid.T) MObj {
-		switch rapid.IntRange(0, 5).Draw(t, "objkind") {
+		switch rapid.IntRange(0, 6).Draw(t, "objkind") {
 		case 0:
 			return nil
 		case 1:
 			return MObj{}
+		case 6:
+			// bulk: what a package manager or a test runner prints in structured form - a long list of
+			// small lists, or lists nested far deeper than any fixture
+			if rapid.Bool().Draw(t, "bulkdeep") {
+				v := MVal{K: "s", S: "core"}
+				for i, n := 0, rapid.SampledFrom([]int{20, 70, 150}).Draw(t, "depth"); i < n; i++ {
+					v = MVal{K: "l", L: []MVal{v}}
+				}
+				return MObj{"nested": v}
+			}
+			var pairs []MVal
+			for i, n := 0, rapid.SampledFrom([]int{30, 65, 100, 300}).Draw(t, "npairs"); i < n; i++ {
+				pairs = append(pairs, MVal{K: "l", L: []MVal{{K: "s", S: fmt.Sprintf("pkg-%d", i)}, {K: "i", I: int64(i)}}})
+			}
+			return MObj{"packages": MVal{K: "l", L: pairs}}
 		}
 		return MObj(rapid.MapOfN(GenString(ctrl), GenMVal(ctrl, floats, 2), 1, 4).Draw(t, "obj"))
 	})
